@@ -4,6 +4,12 @@ NOTES = ("All checks: bin/check <ID> --tier quick|thorough. Exit 0 held / 1 VIOL
          "Specification in spec/, harness in harness/, known findings in known_findings.jsonl; see DESIGN.md.")
 NOT_APPLICABLE = {}
 CHECKS = {
+    "C11": {
+        "level": "model_checking",
+        "technique": "TLA+ Selectors spec: selector AST, element matching over an enumerated universe of DOM trees (<= 4 nodes, 7 shapes), relations Subsumes / SameMeaning / WithinBoth quantified over every element of every DOM; TLC enumerates operand selectors compound by compound and derives related pairs by inserting a compound (MC_Selectors); grass evaluates is-superselector, selector-unify, -nest, -extend, -replace, -parse on each pair; results parsed by the checker and judged by TLC (Trace_Selectors, 12 parallel slices)",
+        "text": "is-superselector(A,B)=true must imply that every element matched by B is matched by A, and is-superselector(A,A) must be true; every selector returned by selector-unify matches only elements matched by both operands; selector-parse output, selector-nest vs the nested rule and selector-extend vs @extend must have the same meaning; no call may crash. Operands: all complex selectors of <= 2 compounds over 6 compound forms and 4 combinators, 3-compound samples, all pairs of 13 single compounds with related :not()/:is() arguments, and ~2800 related pairs (B = A with one compound inserted).",
+        "note": "Alphabet: two types, two classes, :not, :is, universal; ids, attributes and opaque pseudo-classes/elements are outside it; DOM universe of 7 shapes with 5-8 element kinds; completeness of is-superselector (false negatives) is not demanded by the property.",
+    },
     "C15": {
         "level": "model_checking",
         "technique": "TLA+ Color spec over exact rationals (RGB<->HSL<->HWB by the CSS formulas, admissible-value sets at .5 channel boundaries, the colour functions by definition; TLC checks the HSL round trip on every generated colour) and an independent CSS named-colour table (ColorNames); TLC enumerates colour x function x parameter (MC_Color); grass evaluates each through red()/green()/blue()/alpha(); all 148 names and the short-hex cube are compared across 4-5 spellings for equality and identical compressed printing",
